@@ -25,6 +25,8 @@ D == Range(TreeRow.dirs)        \* directories of the temp tree
 F == Range(TreeRow.files)       \* files of the temp tree
 E == D \cup F
 
+\* (leg R of the check roots a filesystem at the same three directories through a RELATIVE spelling - ".", "./",
+\*  "a/..", "./." from inside the directory; the base of an observation is still BaseSeq[o.b])
 BaseSeq     == << <<>>, <<"tmp">>, <<"tmp", "a">> >>
 CwdSeq      == BaseSeq
 MountSetSeq == << {<<>>}, {<<"tmp">>}, {<<"tmp", "a">>}, {<<"tmp">>, <<"tmp", "a">>}, {<<"a">>, <<"ab">>},
